@@ -39,7 +39,12 @@ from fractions import Fraction
 VERIF = os.path.dirname(os.path.dirname(os.path.abspath(__file__)))
 LEAN = os.path.join(VERIF, 'lean')
 REPO = os.environ.get('PYCEL_REPO', '/repo')
-DRIVER = os.path.join(LEAN, '.lake', 'build', 'bin', 'pycel_driver')
+
+
+def driver_path(prop_id):
+    return os.path.join(LEAN, '.lake', 'build', 'bin', f'drv_{prop_id.lower()}')
+
+
 ALLOWED_AXIOMS = {'propext', 'Classical.choice', 'Quot.sound'}
 FORBIDDEN = re.compile(r'\b(sorry|admit|native_decide|bv_decide|implemented_by|unsafe)\b|^\s*axiom\s|maxHeartbeats\s+0\b')
 
@@ -167,9 +172,9 @@ class LeanSide:
             fcntl.flock(lock, fcntl.LOCK_UN)
             lock.close()
 
-    def build(self, lean_module):
-        rc, out = self._lake(['build', 'pycel_driver'])
-        self.driver_ok = rc == 0 and os.path.exists(DRIVER)
+    def build(self, lean_module, prop_id):
+        rc, out = self._lake(['build', f'drv_{prop_id.lower()}'])
+        self.driver_ok = rc == 0 and os.path.exists(driver_path(prop_id))
         self.build_log += out[-4000:] if rc else ''
         rc, out = self._lake(['build', lean_module])
         self.props_ok = rc == 0
@@ -254,11 +259,11 @@ def write_if_changed(path, content):
     return True
 
 
-def run_driver(lines, timeout=3000):
+def run_driver(prop_id, lines, timeout=3000):
     """pipe protocol lines to the compiled model; returns the list of answer lines"""
     if not lines:
         return []
-    p = subprocess.run([DRIVER], input='\n'.join(lines) + '\n', capture_output=True, text=True, timeout=timeout)
+    p = subprocess.run([driver_path(prop_id)], input='\n'.join(lines) + '\n', capture_output=True, text=True, timeout=timeout)
     outs = p.stdout.split('\n')
     if outs and outs[-1] == '':
         outs.pop()
@@ -338,9 +343,9 @@ def main(argv=None):
     # 1. Lean: build model driver + property theorems, audit axioms
     lean = LeanSide(log)
     if args.no_build:
-        lean.driver_ok, lean.props_ok = os.path.exists(DRIVER), True
+        lean.driver_ok, lean.props_ok = os.path.exists(driver_path(prop_id)), True
     else:
-        lean.build(mod.LEAN_MODULE)
+        lean.build(mod.LEAN_MODULE, prop_id)
     axioms = lean.audit(prop_id, mod.LEAN_MODULE, mod.THEOREMS)
     forbidden = lean.grep_forbidden()
     broken_theorems = []
@@ -388,7 +393,7 @@ def main(argv=None):
                 ls = mod.model_lines(r.case)
                 spans.append((len(lines), len(ls)))
                 lines.extend(ls)
-            outs = run_driver(lines)
+            outs = run_driver(prop_id, lines)
             for r, (a, n) in zip(results, spans):
                 r.model = '|'.join(outs[a:a + n])
         except Exception as exc:   # noqa
